@@ -55,22 +55,24 @@ ADD_LRU_C13 = [T(TR, "LRUTrie.add_lru", 16, "thorough"), T(TR, "LRUTrie.add_lru"
 STORAGE = [T(ST, f, 2 if f.endswith(".write") else 1) for f in STORAGE_FNS]
 LINK_NODE = [T(LK, "LinkStoreNode." + n) for n in ("has_previous", "previous", "has_target", "target", "set_previous", "set_target", "read")]
 ADD_LINKS = [T(LK, "LinkStore.add_links", 8)]
-WALKS = [T(LK, "LinkStore.weighted_link_nodes_iter", 2)]
+WALKS = [T(LK, "LinkStore.weighted_link_nodes_iter", 2), T(LK, "LinkStore.deduped_link_nodes_iter", 2)]
 COUNT_LINKS = [T(LK, "LinkStore.count_links")]
 ADD_PAGE = [T(FA, "LRUTrie.add_page", 4)]
 EDITS = [T(FA, "Traph.add_prefix_to_webentity", 4), T(FA, "Traph.remove_prefix_from_webentity", 6), T(FA, "Traph.move_prefix_to_webentity", 6)]
 IDS = [T(FA, "Traph.__generated_web_entity_id"), T(FA, "LRUTrieHeader.__init__")]
 RESOLVE = [T(FA, "Traph.retrieve_webentity"), T(FA, "Traph.retrieve_prefix")]
-READERS = [T(TR, "LRUTrie.lru_node", 4), T(TR, "LRUTrie.follow_lru", 4)]
+READERS = [T(TR, "LRUTrie.lru_node", 8), T(TR, "LRUTrie.follow_lru", 8)]
 WINDUP = [T(TR, "LRUTrie.windup_lru", 2)]
 COUNTS = [T(TR, "LRUTrie.count_pages"), T(TR, "LRUTrie.count_crawled_pages")]
+DFS = [T(TR, "LRUTrie.dfs_iter", 2), T(TR, "LRUTrie.pages_iter", 2)]
+REALM = [T(TR, "LRUTrie.webentity_dfs_iter", 4)]
 
 DEDUCTIVE = {
-    "C01": node(["is_page", "is_crawled", "flag_as_page", "flag_as_crawled", "unflag_as_page", "unflag_as_crawled"]) + CHUNKS + NODE_RW[:2] + ENSURE + ADD_PAGE + COUNTS + ADD_LRU,
-    "C02": STORAGE[2:4] + STORAGE[6:9] + CHUNKS + NODE_RW + node(["stem", "left", "right", "child", "has_left", "has_right", "has_child", "set_left", "set_right", "set_child", "set_parent"]) + ENSURE + READERS + WINDUP + ADD_LRU,
+    "C01": node(["is_page", "is_crawled", "flag_as_page", "flag_as_crawled", "unflag_as_page", "unflag_as_crawled"]) + CHUNKS + NODE_RW[:2] + ENSURE + ADD_PAGE + COUNTS + DFS + ADD_LRU,
+    "C02": STORAGE[2:4] + STORAGE[6:9] + CHUNKS + NODE_RW + node(["stem", "left", "right", "child", "has_left", "has_right", "has_child", "set_left", "set_right", "set_child", "set_parent"]) + ENSURE + READERS + WINDUP + DFS + ADD_LRU,
     "C03": node(["has_outlinks", "outlinks", "has_inlinks", "inlinks", "set_outlinks", "set_inlinks"]) + NODE_RW[:2] + LINK_NODE + ADD_LINKS + WALKS + COUNT_LINKS,
     "C04": node(["has_webentity", "webentity", "set_webentity", "unset_webentity"]) + NODE_RW[:2] + EDITS + READERS[1:] + RESOLVE,
-    "C05": node(["has_webentity", "is_page", "is_crawled", "has_child", "child", "has_left", "has_right"]) + READERS[:1],
+    "C05": node(["has_webentity", "is_page", "is_crawled", "has_child", "child", "has_left", "has_right"]) + READERS[:1] + REALM,
     "C06": node(["has_webentity_creation_rule", "flag_as_webentity_creation_rule", "unflag_as_webentity_creation_rule"]) + READERS[1:] + [T(HE, "LRUTrieWalkHistory.rules_to_apply")],
     "C07": node(["has_webentity", "webentity", "has_parent", "parent"]) + LINK_NODE + WALKS + [T(TR, "LRUTrie.dfs_with_webentity_iter", 2), T(TR, "LRUTrie.windup_lru_for_webentity", 2)],
     "C08": node(["has_outlinks", "has_inlinks", "outlinks", "inlinks"]) + LINK_NODE + WALKS + [T(TR, "LRUTrie.windup_lru_for_webentity", 2)] + WINDUP,
@@ -78,14 +80,14 @@ DEDUCTIVE = {
     "C10": node(["has_outlinks", "outlinks", "is_page"]),
     "C11": STORAGE + IDS[1:],
     "C12": IDS,
-    "C13": node(["can_have_child_webentities", "flag_can_have_child_webentities", "has_parent", "parent"]) + ENSURE + EDITS + ADD_LRU_C13,
+    "C13": node(["can_have_child_webentities", "flag_can_have_child_webentities", "has_parent", "parent"]) + ENSURE + EDITS + DFS[:1] + ADD_LRU_C13,
     "C14": [T(ST, f) for f in ("MemoryStorage.read", "FileStorage.read", "MemMapStorage.read", "MemoryStorage.__len__", "FileStorage.__len__", "FileStorage.check_for_corruption")] + [T(NO, "LRUTrieNode.read", 2)] + node(NODE_ACCESSORS) + READERS,
     "C15": STORAGE + [T(NO, "LRUTrieNode.read", 2)],
     "C16": NODE_RW[:2] + ADD_LINKS,
     "C17": [T(HE, "https_variation"), T(HE, "lru_variations")],
     "C18": [T(NO, "LRUTrieNode.read", 2), T(NO, "LRUTrieNode.write", 8), T(LK, "LinkStoreNode.read")] + ADD_LINKS + COUNTS + [T(ST, "FileStorage.check_for_corruption"), T(ST, "FileStorage.read"), T(ST, "FileStorage.write", 2)],
     "C19": CHUNKS + [T(NO, "LRUTrieNode.write", 8), T(ST, "MemoryStorage.count_blocks"), T(ST, "FileStorage.count_blocks")] + ENSURE + ADD_LRU + ADD_LINKS + COUNT_LINKS,
-    "C20": node(["has_inlinks", "inlinks", "is_page"]) + LINK_NODE + WALKS,
+    "C20": node(["has_inlinks", "inlinks", "is_page"]) + LINK_NODE + WALKS + REALM,
 }
 
 # FR-STATE is a premise of every property that relates answers to the history of
@@ -93,7 +95,7 @@ DEDUCTIVE = {
 STATIC = {
     "C01": ["TS", "FR-STATE"],
     "C02": ["FR-STATE"],
-    "C03": ["TS", "FR-STATE", "PRE-STUB:get_page_links,links_iter,links_metrics"],
+    "C03": ["TS", "FR-STATE", "PRE-STUB:get_page_links,links_iter,links_metrics", "LK-PAIR"],
     "C04": ["TS", "FR-STATE"],
     "C05": ["FR-STATE"],
     "C06": ["FR-RO:get_potential_prefix", "FR-STATE"],
